@@ -1822,7 +1822,7 @@ class FuncFindLast(ValueFunc):
                 env = environment.newEnv()
             item = args.get("part")
             lst = obj.value
-            start = args.getInt("start", len(lst) - 1).value
+            start = min(args.getInt("start", len(lst) - 1).value, len(lst) - 1)
             for idx in range(start, -1, -1):
                 elem = lst[idx]
                 if key:
